@@ -6,6 +6,7 @@ import (
 	"path/filepath"
 	"reflect"
 	"runtime"
+	"sort"
 	"strings"
 	"sync"
 	"time"
@@ -321,23 +322,63 @@ func (rc *RunCtx) execFamily(u *ExecUniverse, prefixes ...string) {
 	}
 }
 
-// reproduces re-runs a case and compares with the recorded observation
-// (several attempts when the order of object members is in play).
+// reproduces re-runs a case and compares with the recorded observation.
+// When objects with several members are in play the order of items may
+// differ between runs, so item lists are compared as multisets and First's
+// item is ignored.
 func (rc *RunCtx) reproduces(u *ExecUniverse, ref CaseRef, row ObsRow) bool {
+	c := u.caseOf(ref)
+	loose := multiMember(c.Doc)
+	for _, v := range c.Vars {
+		loose = loose || multiMember(v.V)
+	}
 	for try := 0; try < 8; try++ {
-		rec, err := run.ObserveCase(row.ID, u.caseOf(ref))
+		rec, err := run.ObserveCase(row.ID, c)
 		if err != nil {
 			return false
 		}
-		rec.V.Polls, rec.S.Polls = row.V.Polls, row.S.Polls
-		if reflect.DeepEqual(normObs(rec.V), normObs(row.V)) && reflect.DeepEqual(normObs(rec.S), normObs(row.S)) {
+		if normObs(rec.V, loose) == normObs(row.V, loose) && normObs(rec.S, loose) == normObs(row.S, loose) {
 			return true
 		}
 	}
 	return false
 }
 
-func normObs(o wire.RunObs) string {
+func multiMember(v wire.Value) bool {
+	switch v.T {
+	case "arr":
+		for _, x := range v.A {
+			if multiMember(x) {
+				return true
+			}
+		}
+	case "obj":
+		if len(v.O) >= 2 {
+			return true
+		}
+		for _, m := range v.O {
+			if multiMember(m.V) {
+				return true
+			}
+		}
+	}
+	return false
+}
+
+func normObs(o wire.RunObs, loose ...bool) string {
+	o.Polls = 0
+	if len(loose) > 0 && loose[0] {
+		items := make([]string, len(o.Query.Items))
+		for i, x := range o.Query.Items {
+			b, _ := json.Marshal(x)
+			items[i] = string(b)
+		}
+		sort.Strings(items)
+		o.Query.Items = nil
+		o.First.Items = nil
+		b, _ := json.Marshal(o)
+		return string(b) + strings.Join(items, ",")
+	}
 	b, _ := json.Marshal(o)
 	return string(b)
 }
